@@ -379,7 +379,7 @@ def check_swap_atomic(ctx, R, classes):
         fields = set(element_buffers(ctx, cls)) | set(md_containers(ctx, cls))
         if not fields:
             continue
-        for mname, fn in cls.methods.items():
+        for mname, fn in ctx.entry_methods(cls):
             if mname == '__init__':
                 continue
             con = ctx.construct(fn)
@@ -469,7 +469,7 @@ def check_fresh_read(ctx, R, classes):
         # containers only (filled by append/extend/setitem/put): a scalar state such as accumulate.state is
         # legitimately read before it is replaced
         containers = set()
-        for mname, fn in cls.methods.items():
+        for mname, fn in ctx.entry_methods(cls):
             if mname == '__init__':
                 continue
             for st, status in ctx.paths(fn, cls):
@@ -479,7 +479,7 @@ def check_fresh_read(ctx, R, classes):
         fields &= containers
         if not fields:
             continue
-        for mname, fn in cls.methods.items():
+        for mname, fn in ctx.entry_methods(cls):
             if mname == '__init__':
                 continue
             acc = {}
@@ -599,7 +599,7 @@ def check_flush_resets(ctx, R, classes):
         if cls.name not in BATCHING or cls.module.name != 'streamz.core':
             continue
         ebufs = element_buffers(ctx, cls)
-        for mname, fn in cls.methods.items():
+        for mname, fn in ctx.entry_methods(cls):
             if mname == '__init__':
                 continue
             con = ctx.construct(fn)
@@ -669,7 +669,7 @@ def check_paired_buffer(ctx, R, classes):
             continue
         for d, m in buffer_pairs(ctx, cls):
             exc = (cls.name, d, m) in PAIR_EXCEPTIONS
-            for mname, fn in cls.methods.items():
+            for mname, fn in ctx.entry_methods(cls):
                 if mname == '__init__':
                     continue
                 con = ctx.construct(fn)
@@ -700,7 +700,7 @@ def check_paired_buffer(ctx, R, classes):
                          fmt_path(bad) if bad else None, n)
         # an emission built from the element buffer carries the twin's content
         for d, m in buffer_pairs(ctx, cls):
-            for mname, fn in cls.methods.items():
+            for mname, fn in ctx.entry_methods(cls):
                 if mname == '__init__':
                     continue
                 acc = None
@@ -715,7 +715,7 @@ def check_paired_buffer(ctx, R, classes):
                          'the emitted value is built from self.%s but its metadata is not built from self.%s' % (d, m),
                          ctx.where(fn, acc[1]), fmt_path(acc[2]) if acc[2] else None)
         # member order: data and metadata arguments of an emission carry the same order-changing wrappers
-        for mname, fn in cls.methods.items():
+        for mname, fn in ctx.entry_methods(cls):
             if mname == '__init__':
                 continue
             for st, status in ctx.paths(fn, cls):
